@@ -36,44 +36,150 @@ theorem find?_sortOn_net (lt : LocObs → LocObs → Bool) (l : List LocObs)
 
 /-! ## the observed pieces of a family -/
 
-def dentryOf (fl : Flags) (e : Entry) : DEntry :=
-  { src := e.src.id, rpid := e.rpid, attr := e.attr.id, stale := e.isStale fl, filtered := e.filtered }
-
-def locOf (fl : Flags) (net : Net) (destId : Nat) (el : List Entry) : LocObs :=
-  { net := net, destId := destId, ecmp := ecmpCount fl net.t2 el, paths := el.map Entry.ref }
+def locOf (sh : Nat) (fl : Flags) (net : Net) (destId : Nat) (el : List Entry) : LocObs :=
+  { net := net, destId := packId sh destId, ecmp := ecmpIds fl net.t2 el, paths := el.map Entry.ref }
 
 variable {c : Case} {g : Nat → Fam}
 
-theorem nonEmpty_filter_eq {fl : Flags} {f : Fam} {r : Rib} (h : RibInv c g fl f r) :
-    (r.dests.filter fun nd => !nd.2.entries.isEmpty) = r.dests := by
-  apply List.filter_eq_self.mpr
-  intro nd hnd
-  have := (h.dest nd hnd).nonEmpty
-  cases he : nd.2.entries with
-  | nil => exact absurd he this
-  | cons a l => simp
+/-! ### views (`viewOf`) -/
 
-theorem famObs_dests_eq (t : Table) (f : Fam) (h : RibInv c g t.flags f (t.rib f)) :
-    (famObs t f).dests = sortOn (fun a b => a.1.lt b.1)
-      ((t.rib f).dests.map fun nd => (nd.1, nd.2.entries.map (dentryOf t.flags))) := by
-  simp only [famObs, nonEmpty_filter_eq h]
-  rfl
+theorem viewOf_keys_sublist {β} (sel : List Entry → Option β) (ds : List (Net × Dest)) :
+    ((ds.filterMap fun nd => (sel nd.2.entries).map fun b => (nd.1, b)).map (·.1)).Sublist (ds.map (·.1)) := by
+  induction ds with
+  | nil => simp
+  | cons nd l ih =>
+    simp only [List.filterMap_cons, List.map_cons]
+    cases sel nd.2.entries with
+    | none => exact List.Sublist.cons _ ih
+    | some b => simp only [Option.map_some, List.map_cons]; exact List.Sublist.cons_cons _ ih
+
+theorem filterMap_sel_find {β} (sel : List Entry → Option β) (ds : List (Net × Dest))
+    (hk : (ds.map (·.1)).Nodup) (n : Net) :
+    ((ds.filterMap fun nd => (sel nd.2.entries).map fun b => (nd.1, b)).find? (fun x => x.1 = n)).map (·.2) =
+      (alookup n ds).bind fun d => sel d.entries := by
+  induction ds with
+  | nil => rfl
+  | cons nd l ih =>
+    obtain ⟨k, d⟩ := nd
+    simp only [List.map_cons, List.nodup_cons] at hk
+    have ih' := ih hk.2
+    by_cases hkn : k = n
+    · subst hkn
+      have hnone : alookup k l = none := alookup_none_iff.mpr hk.1
+      cases hs : sel d.entries with
+      | none =>
+        simp only [List.filterMap_cons, hs, Option.map_none, alookup, if_true, Option.bind_some]
+        rw [ih', hnone]; rfl
+      | some b =>
+        simp [List.filterMap_cons, hs, alookup]
+    · cases hs : sel d.entries with
+      | none =>
+        simp only [List.filterMap_cons, hs, Option.map_none, alookup, hkn, if_false]
+        exact ih'
+      | some b =>
+        simp only [List.filterMap_cons, hs, Option.map_some, alookup, hkn, if_false, List.find?_cons, decide_false]
+        exact ih'
+
+/-- looking a prefix up in a view -/
+theorem viewOf_find {β} (sel : List Entry → Option β) (ds : List (Net × Dest)) (hk : (ds.map (·.1)).Nodup) (n : Net) :
+    ((viewOf sel ds).find? (fun x => x.1 = n)).map (·.2) = (alookup n ds).bind fun d => sel d.entries := by
+  unfold viewOf
+  rw [find?_sortOn_fst]
+  · exact filterMap_sel_find sel ds hk n
+  · exact List.Nodup.sublist (viewOf_keys_sublist sel ds) hk
+
+theorem viewOf_mem {β} (sel : List Entry → Option β) (ds : List (Net × Dest)) {x : Net × β} :
+    x ∈ viewOf sel ds ↔ ∃ nd ∈ ds, ∃ b, sel nd.2.entries = some b ∧ x = (nd.1, b) := by
+  unfold viewOf
+  rw [mem_sortOn, List.mem_filterMap]
+  constructor
+  · rintro ⟨nd, hnd, h⟩
+    cases hs : sel nd.2.entries with
+    | none => rw [hs] at h; simp at h
+    | some b => rw [hs] at h; simp at h; exact ⟨nd, hnd, b, hs, h.symm⟩
+  · rintro ⟨nd, hnd, b, hs, rfl⟩
+    exact ⟨nd, hnd, by rw [hs]; rfl⟩
+
+theorem nonEmptyList_map {β γ} (fm : β → γ) {l : List β} (h : l ≠ []) : nonEmptyList (l.map fm) = some (l.map fm) := by
+  cases l with
+  | nil => exact absurd rfl h
+  | cons a l => rfl
 
 /-- looking a prefix up in the observed destinations -/
 theorem famObs_dests_find (t : Table) (f : Fam) (h : RibInv c g t.flags f (t.rib f)) (n : Net) :
-    ((famObs t f).dests.find? (fun d => d.1 = n)).map (·.2) =
+    ((famObs c t f).dests.find? (fun d => d.1 = n)).map (·.2) =
       (alookup n (t.rib f).dests).map (fun d => d.entries.map (dentryOf t.flags)) := by
-  rw [famObs_dests_eq t f h, find?_sortOn_fst]
-  · rw [alookup_eq_find, List.find?_map]
-    simp only [Function.comp_def, Option.map_map]
-  · rw [List.map_map]; exact h.keys
+  simp only [famObs]
+  rw [viewOf_find _ _ h.keys]
+  cases hl : alookup n (t.rib f).dests with
+  | none => rfl
+  | some d =>
+    have := (h.dest (n, d) (alookup_some_mem hl)).nonEmpty
+    simp only [Option.bind_some, Option.map_some]
+    exact nonEmptyList_map _ this
 
 theorem famObs_dests_mem (t : Table) (f : Fam) (h : RibInv c g t.flags f (t.rib f)) {d : Net × List DEntry} :
-    d ∈ (famObs t f).dests ↔ ∃ nd ∈ (t.rib f).dests, d = (nd.1, nd.2.entries.map (dentryOf t.flags)) := by
-  rw [famObs_dests_eq t f h, mem_sortOn, List.mem_map]
+    d ∈ (famObs c t f).dests ↔ ∃ nd ∈ (t.rib f).dests, d = (nd.1, nd.2.entries.map (dentryOf t.flags)) := by
+  simp only [famObs]
+  rw [viewOf_mem]
   constructor
-  · rintro ⟨nd, hnd, rfl⟩; exact ⟨nd, hnd, rfl⟩
-  · rintro ⟨nd, hnd, rfl⟩; exact ⟨nd, hnd, rfl⟩
+  · rintro ⟨nd, hnd, b, hs, rfl⟩
+    rw [nonEmptyList_map _ (h.dest nd hnd).nonEmpty] at hs
+    simp only [Option.some.injEq] at hs
+    exact ⟨nd, hnd, by rw [hs]⟩
+  · rintro ⟨nd, hnd, rfl⟩
+    exact ⟨nd, hnd, _, nonEmptyList_map _ (h.dest nd hnd).nonEmpty, rfl⟩
+
+/-- what ListPath shows of a prefix by default (`enable_filtered = false`) -/
+theorem famObs_nofilt_find (t : Table) (f : Fam) (h : RibInv c g t.flags f (t.rib f)) (n : Net) :
+    ((famObs c t f).nofilt.find? (fun d => d.1 = n)).map (·.2) =
+      (alookup n (t.rib f).dests).bind fun d =>
+        nonEmptyList ((d.entries.filter fun e => !e.filtered).map (dentryOf t.flags)) := by
+  simp only [famObs]
+  exact viewOf_find _ _ h.keys n
+
+theorem find_assoc_map {β} (l : List Nat) (fv : Nat → β) (a : Nat) (ha : a ∈ l) :
+    ((l.map fun x => (x, fv x)).find? (fun p => p.1 = a)).map (·.2) = some (fv a) := by
+  induction l with
+  | nil => simp at ha
+  | cons x l ih =>
+    by_cases hx : x = a
+    · subst hx; simp
+    · have : a ∈ l := by
+        rcases List.mem_cons.mp ha with h | h
+        · exact absurd h.symm hx
+        · exact h
+      rw [List.map_cons, List.find?_cons]
+      simp only [hx, decide_false]
+      exact ih this
+
+/-- the Adj-RIB-In view of peer `a` for prefix `n` -/
+theorem famObs_adjIn_find (t : Table) (f : Fam) (h : RibInv c g t.flags f (t.rib f)) {a : Nat} (ha : a ∈ c.addrs)
+    (n : Net) :
+    (((famObs c t f).adjIn.find? (fun p => p.1 = a)).map (·.2)).bind (fun v => (v.find? (fun d => d.1 = n)).map (·.2)) =
+      (alookup n (t.rib f).dests).bind fun d =>
+        nonEmptyList ((d.entries.filter (sameAddr a)).map (dentryOf t.flags)) := by
+  simp only [famObs]
+  rw [find_assoc_map c.addrs _ a ha]
+  simp only [Option.bind_some]
+  exact viewOf_find _ _ h.keys n
+
+/-- the RS-client local view of peer `a` for prefix `n` -/
+theorem famObs_rsLocal_find (t : Table) (f : Fam) (h : RibInv c g t.flags f (t.rib f)) {a : Nat} (ha : a ∈ c.addrs)
+    (n : Net) :
+    (((famObs c t f).rsLocal.find? (fun p => p.1 = a)).map (·.2)).bind (fun v => (v.find? (fun d => d.1 = n)).map (·.2)) =
+      (alookup n (t.rib f).dests).bind fun d =>
+        (rsLocalOf a d.entries).map fun e => { dentryOf t.flags e with rpid := 0, filtered := false } := by
+  simp only [famObs]
+  rw [find_assoc_map c.addrs _ a ha]
+  simp only [Option.bind_some]
+  exact viewOf_find _ _ h.keys n
+
+theorem famObs_adjIn_keys (t : Table) (f : Fam) : (famObs c t f).adjIn.map (·.1) = c.addrs := by
+  simp [famObs, List.map_map, Function.comp_def]
+
+theorem famObs_rsLocal_keys (t : Table) (f : Fam) : (famObs c t f).rsLocal.map (·.1) = c.addrs := by
+  simp [famObs, List.map_map, Function.comp_def]
 
 def collectPaths (max : Option Nat) (nd : Net × Dest) : List Entry :=
   match max with
@@ -177,14 +283,14 @@ theorem mem_collect {f : Fam} {r : Rib} {max : Option Nat} {ch : Change} :
 
 /-- looking a prefix up in the observed Loc-RIB dump -/
 theorem famObs_loc_find (t : Table) (f : Fam) (h : RibInv c g t.flags f (t.rib f)) (n : Net) :
-    (famObs t f).loc.find? (fun l => l.net = n) =
+    (famObs c t f).loc.find? (fun l => l.net = n) =
       if (t.elig f n).isEmpty then none
-      else (t.destId f n).map fun i => locOf t.flags n i (t.elig f n) := by
+      else (t.destId f n).map fun i => locOf c.shard t.flags n i (t.elig f n) := by
   simp only [famObs]
   rw [find?_sortOn_net]
   · rw [List.find?_map]
     have : ((fun l : LocObs => decide (l.net = n)) ∘ fun (ch : Change) =>
-        ({ net := ch.net, destId := ch.destId, ecmp := ecmpCount t.flags ch.net.t2 ch.paths,
+        ({ net := ch.net, destId := packId c.shard ch.destId, ecmp := ecmpIds t.flags ch.net.t2 ch.paths,
            paths := ch.paths.map Entry.ref } : LocObs)) = fun ch => decide (ch.net = n) := rfl
     rw [this, collect_find f _ none h.keys n]
     unfold Table.elig Table.destId
@@ -198,9 +304,9 @@ theorem famObs_loc_find (t : Table) (f : Fam) (h : RibInv c g t.flags f (t.rib f
   · rw [List.map_map]
     exact collect_nets_nodup f _ none h.keys
 
-theorem famObs_loc_mem (t : Table) (f : Fam) {l : LocObs} (hl : l ∈ (famObs t f).loc) :
+theorem famObs_loc_mem (t : Table) (f : Fam) {l : LocObs} (hl : l ∈ (famObs c t f).loc) :
     ∃ nd ∈ (t.rib f).dests, (nd.2.entries.filter Entry.eligible) ≠ [] ∧
-      l = locOf t.flags nd.1 nd.2.id (nd.2.entries.filter Entry.eligible) := by
+      l = locOf c.shard t.flags nd.1 nd.2.id (nd.2.entries.filter Entry.eligible) := by
   simp only [famObs, mem_sortOn, List.mem_map] at hl
   obtain ⟨ch, hch, rfl⟩ := hl
   obtain ⟨nd, hnd, hc⟩ := mem_collect.mp hch
@@ -209,29 +315,50 @@ theorem famObs_loc_mem (t : Table) (f : Fam) {l : LocObs} (hl : l ∈ (famObs t 
   intro he
   simp [collectPaths, he] at hne
 
-/-- looking a prefix up in the observed add-path (N = 2) dump -/
-theorem famObs_lim2_find (t : Table) (f : Fam) (h : RibInv c g t.flags f (t.rib f)) (n : Net) :
-    ((famObs t f).lim2.find? (fun l => l.1 = n)).map (·.2) =
-      if (t.elig f n).isEmpty then none else some (((t.elig f n).take 2).map (·.lpid)) := by
-  simp only [famObs]
+theorem limOf_find (f : Fam) (r : Rib) (k : Nat) (hk0 : 0 < k) (hk : (r.dests.map (·.1)).Nodup) (n : Net) :
+    ((sortOn (fun a b => a.1.lt b.1) ((r.collect f (some k)).map fun ch => (ch.net, ch.paths.map (·.lpid)))).find?
+        (fun l => l.1 = n)).map (·.2) =
+      (alookup n r.dests).bind fun d =>
+        if (d.entries.filter Entry.eligible).isEmpty then none
+        else some (((d.entries.filter Entry.eligible).take k).map (·.lpid)) := by
   rw [find?_sortOn_fst]
   · rw [List.find?_map]
     have : ((fun l : Net × List Nat => decide (l.1 = n)) ∘ fun (ch : Change) => (ch.net, ch.paths.map (·.lpid)))
         = fun ch => decide (ch.net = n) := rfl
-    rw [this, collect_find f _ (some 2) h.keys n]
-    unfold Table.elig
-    cases ha : alookup n (t.rib f).dests with
+    rw [this, collect_find f _ (some k) hk n]
+    cases ha : alookup n r.dests with
     | none => simp
     | some d =>
       simp only [Option.bind_some, collectOf_some_eq]
-      have hiff : ((d.entries.filter Entry.eligible).take 2).isEmpty = (d.entries.filter Entry.eligible).isEmpty := by
-        cases d.entries.filter Entry.eligible <;> rfl
+      have hiff : ((d.entries.filter Entry.eligible).take k).isEmpty = (d.entries.filter Entry.eligible).isEmpty := by
+        cases d.entries.filter Entry.eligible with
+        | nil => simp
+        | cons a l => cases k with
+          | zero => omega
+          | succ k => simp
       by_cases hE : (d.entries.filter Entry.eligible).isEmpty = true
       · rw [if_pos (hiff ▸ hE), if_pos hE]; rfl
       · rw [if_neg (hiff ▸ hE), if_neg hE]
         simp only [Option.map_some, List.map_take]
   · rw [List.map_map]
-    exact collect_nets_nodup f _ (some 2) h.keys
+    exact collect_nets_nodup f _ (some k) hk
+
+/-- looking a prefix up in the observed add-path dumps (N = 2, 3) -/
+theorem famObs_lim2_find (t : Table) (f : Fam) (h : RibInv c g t.flags f (t.rib f)) (n : Net) :
+    ((famObs c t f).lim2.find? (fun l => l.1 = n)).map (·.2) =
+      if (t.elig f n).isEmpty then none else some (((t.elig f n).take 2).map (·.lpid)) := by
+  simp only [famObs]
+  rw [limOf_find f _ 2 (by omega) h.keys n]
+  unfold Table.elig
+  cases alookup n (t.rib f).dests <;> rfl
+
+theorem famObs_lim3_find (t : Table) (f : Fam) (h : RibInv c g t.flags f (t.rib f)) (n : Net) :
+    ((famObs c t f).lim3.find? (fun l => l.1 = n)).map (·.2) =
+      if (t.elig f n).isEmpty then none else some (((t.elig f n).take 3).map (·.lpid)) := by
+  simp only [famObs]
+  rw [limOf_find f _ 3 (by omega) h.keys n]
+  unfold Table.elig
+  cases alookup n (t.rib f).dests <;> rfl
 
 /-! ## flags as observed -/
 
